@@ -232,7 +232,7 @@ def gen_hist(rng, big=False, sched=None):
     """-> list of scenario lines (without the db line): rules, sets, then operations; ends with a build."""
     if not big:
         L = enginelib.gen_history(rng, usedb=True, nops=(4, 11), sched=sched)
-        return [l for l in L if not l.startswith("db ")]
+        return add_failures(rng, [l for l in L if not l.startswith("db ")])[0]
     ni, n, rules = gen_big_rules(rng)
     L = [enginelib.rule_line(k, rules[k]) for k in sorted(rules)]
     obs = [k for k in rules if rules[k].get("obs")]
@@ -245,7 +245,47 @@ def gen_hist(rng, big=False, sched=None):
         if rng.random() < 0.4:
             L.append("restart")
         L.append("build %d%s" % (rng.choice([n - 1, n - 2, n - 3]), (" sched=" + sched(rng)) if sched else ""))
-    return L
+    return add_failures(rng, L, big=True)[0]
+
+
+def is_cancel_line(l):
+    return l.startswith("build ") and " cancel=" in l
+
+
+def add_failures(rng, L, big=False):
+    """Cancelled builds (cancelBuild() from inside the n-th task callback / at the n-th engine loop iteration) and cycle-failed
+    builds (two extra rules that request each other behind some ordinary keys) as ordinary history steps.
+    -> (lines, cycle key or None)"""
+    keys = [int(l.split(" ")[1]) for l in L if l.startswith("rule ")]
+    n = max(keys) + 1
+    first_op = min(i for i, l in enumerate(L) if not l.startswith(("rule ", "name ")))
+    cyc = None
+    out = list(L)
+    if rng.random() < (0.7 if not big else 1.0):
+        lower = sorted(set(keys))
+        a = rng.sample(lower, min(len(lower), rng.randint(1, 3) if not big else rng.randint(8, 20)))
+        cyc = n
+        out[first_op:first_op] = ["rule %d sig=0 obs=0 req=%s,%d" % (n, ",".join(map(str, a)), n + 1),
+                                  "rule %d sig=0 obs=0 req=%d" % (n + 1, n)]
+    res = []
+    nb = sum(1 for l in out if l.startswith("build "))
+    seen = 0
+    forced = rng.randrange(max(1, nb - 1))
+    for l in out:
+        if l.startswith("build "):
+            last = seen == nb - 1
+            if cyc is not None and not last and rng.random() < 0.25:
+                res.append("build %d" % cyc)
+            if (seen == forced or rng.random() < 0.25) and not (last and nb > 1):
+                spec = ("cancel=cb:%d" % (rng.randint(0, 25) if not big else rng.randint(10, 220))) if rng.random() < 0.6 else \
+                       ("cancel=iter:%d" % (rng.randint(0, 20) if not big else rng.randint(3, 80)))
+                l = l + ("" if " sched=" in l else " sched=sync") + " " + spec
+            seen += 1
+        res.append(l)
+    if cyc is not None and not any(x == "build %d" % cyc for x in res):
+        pos = [i for i, x in enumerate(res) if x.startswith("build ")]
+        res.insert(pos[rng.randrange(len(pos))], "build %d" % cyc)
+    return res, cyc
 
 
 def build_indices(lines):
@@ -298,31 +338,82 @@ def continuation_lines(rng, hist, bi):
 
 # ------------------------------------------------------------------ oracles on driver output
 
+def disc_of(lines):
+    d = {}
+    for l in lines:
+        if l.startswith("rule "):
+            t = l.split(" ")
+            d[int(t[1])] = [int(x) for f in t[2:] if f.startswith("disc=") for x in f[5:].split(",") if x]
+    return d
+
+
+def aborted(b):
+    """the build was cancelled or failed on a cycle"""
+    return (b["result"] or "").endswith(" cancelled") or any(x.startswith("cycle") for x in b["other"]) or \
+        any("cancel-sent" in x for x in b["other"])
+
+
+def window_suspects(out, scen):
+    """The known C05 finding (KNOWN_FINDINGS: discovered-window): a task that completed in an aborted build while one of its
+    discovered dependencies was never looked at in that build is persisted anyway; later builds may keep its stale value.
+    Not a C04 matter: such staleness is noted, not reported."""
+    disc = disc_of(scen)
+    sus = []
+    for b in enginelib.split_builds(out):
+        if b["key"] is None or not aborted(b):
+            continue
+        seen = set(int(l.split(" ")[1]) for l in b["events"] if l.split(" ")[0] in ("valid", "need", "create"))
+        for l in b["events"]:
+            t = l.split(" ")
+            if t[0] == "complete":
+                for d in disc.get(int(t[1]), []):
+                    if d not in seen:
+                        sus.append((int(t[1]), d))
+    return sus
+
+
 def check_outputs(lines):
-    """fresh-engine oracle + error lines of a driver run -> list of (key, text)"""
+    """fresh-engine oracle + error lines of a driver run -> list of (key, text); a cancelled build has no result to compare"""
     bad = []
     last = None
     for l in lines:
         t = l.split(" ")
         if t[0] == "build":
-            last = dict(hdr=l, result=None)
+            last = dict(hdr=l, result=None, cancelled=False)
         elif t[0] == "result" and last is not None:
             last["result"] = t[1]
             last["cancelled"] = len(t) > 2
         elif t[0] == "fresh" and last is not None:
-            if last["result"] != t[2]:
-                bad.append(("stale-after-crash", "%s returned %s, a fresh engine on the same rules and external state returns %s" % (last["hdr"], last["result"], t[2])))
+            if not last["cancelled"] and last["result"] != t[2]:
+                bad.append(("stale-result", "%s returned %s, a fresh engine on the same rules and external state returns %s" % (last["hdr"], last["result"], t[2])))
         elif t[0] in ("attach-error", "dberror") or (t[0] == "error") or l.startswith("LATE-CALLBACK"):
             bad.append(("db-unusable", "the engine reported: %s" % l[:300]))
     return bad
+
+
+def report_uncrashed(chk, out, scen, where, rp, window=False):
+    """all oracles over the output of a process that was NOT killed: fresh-engine oracle, engine errors, and after EVERY build
+    the invariant on the driver's independent dump and the provenance of the rows stamped by that build"""
+    window = window or bool(window_suspects(out, scen))
+    for key, what in check_outputs(out):
+        if key == "stale-result" and window:
+            chk.notes["stale_in_discovered_window_C05_known"] = chk.notes.get("stale_in_discovered_window_C05_known", 0) + 1
+            continue
+        chk.violation("stale-result-uncrashed" if key == "stale-result" else key, "%s: %s" % (where, what), rp)
+    for b in enginelib.split_builds(out):
+        if b["key"] is None:
+            continue
+        for key, what in dump_inv(b["db"], b["epoch"]) + provenance_check(b):
+            chk.violation(key, "%s, after %s (no kill involved): %s" % (where, b["hdr"], what), dict(rp, build=b["hdr"], dump=b["db"][:60]))
+    return window
 
 
 def dump_lines_of(build):
     return list(build["db"])
 
 
-def dump_inv(lines):
-    """DbInv on a dbrow/dbepoch dump printed by the driver"""
+def dump_inv(lines, engine_epoch=None):
+    """DbInv on a dbrow/dbepoch dump printed by the driver (its own read-only connection)"""
     bad = []
     ep = None
     for l in lines:
@@ -333,9 +424,9 @@ def dump_inv(lines):
         if t[0] != "dbrow":
             continue
         if ep is None or int(t[4]) > ep or int(t[5]) > ep:
-            bad.append(("db-inv-epoch", "dump after a continued build: row %s under stored epoch %s" % (l, ep)))
+            bad.append(("db-inv-epoch", "committed row %r under stored iteration %s%s" % (l, ep, "" if engine_epoch is None else " (the engine was at epoch %s)" % engine_epoch)))
         if any(x.startswith("?") for x in t[6:]) or t[1] == "-1":
-            bad.append(("db-inv-dangling-dep", "dump after a continued build: %s" % l))
+            bad.append(("db-inv-dangling-dep", "committed row %r refers to a key that is not stored" % l))
     return bad
 
 
@@ -343,10 +434,11 @@ def provenance_check(build):
     """clause 3 on an uncrashed build: every row stamped with this build's epoch carries the value the task completed with
     and the dependency list the engine recorded for that same execution"""
     bad = []
-    ep = None
-    for l in build["db"]:
-        if l.startswith("dbepoch "):
-            ep = int(l.split(" ")[1])
+    ep = build.get("epoch")
+    if ep is None:
+        for l in build["db"]:
+            if l.startswith("dbepoch "):
+                ep = int(l.split(" ")[1])
     nodeps = any(l.startswith("deps-unavailable") for l in build["other"])     # the driver could not parse the engine's graph dump
     completed = {}
     for l in build["events"]:
@@ -368,6 +460,8 @@ def provenance_check(build):
             if not nodeps and build["deps"].get(k, []) != deps:
                 bad.append(("provenance", "row of key %d stores dependencies %s, the engine recorded %s for that execution" % (k, deps, build["deps"].get(k, []))))
     for k in completed:
+        if aborted(build):
+            break       # a task may call complete() after the cancellation; the engine then drops it (only the other direction holds)
         if k not in stored or int(stored[k][5]) != ep:
             bad.append(("provenance", "task %d completed in the build of epoch %s but its row is missing or carries another epoch" % (k, ep)))
     return bad
@@ -417,6 +511,7 @@ class Target:
         between = hist[(self.idx[bi - 1] + 1) if bi > 0 else 0:self.pos]
         self.crash_lines = ["db 2"] + carry(self.prefix) + [l for l in between if not l.startswith("restart")] + [hist[self.pos]]
         self.ok = False
+        self.window = False          # an aborted build of this lineage falls under the known C05 discovered-window finding
         self.model_cache = {}
 
     def replay_base(self):
@@ -435,10 +530,9 @@ class Target:
                 chk.violation("driver-crash", "engine_driver failed on an uncrashed history prefix (rc %d)" % rc, dict(self.replay_base(), stderr=err[-1500:]))
                 return False
             builds = [b for b in enginelib.split_builds(out) if b["key"] is not None]
+            self.window = report_uncrashed(chk, out, self.prefix, "uncrashed history prefix", self.replay_base())
             prev = []
             for b in builds:
-                for key, what in provenance_check(b) + check_outputs([b["hdr"]] + b["other"]):
-                    chk.violation(key, "uncrashed build: " + what, dict(self.replay_base(), build=b["hdr"]))
                 self.traces.append(ops_of_build(prev, b))
                 prev = b["db"]
             self.pre_dump = list(prev)
@@ -459,8 +553,7 @@ class Target:
         self.calls = [l.split(" ") for l in open(lf).read().splitlines()]
         builds = [b for b in enginelib.split_builds(out) if b["key"] is not None]
         self.ref_build = builds[-1]
-        for key, what in provenance_check(self.ref_build) + check_outputs(out):
-            chk.violation(key, "uncrashed reference build: " + what, dict(self.replay_base()))
+        self.window = report_uncrashed(chk, out, self.crash_lines, "uncrashed reference run of the build to be killed", self.replay_base(), self.window)
         self.post_dump = list(self.ref_build["db"])
         save_db(d, "post")
         self.post = read_db(os.path.join(d, "build.db"))
@@ -593,15 +686,32 @@ class Target:
         if rc2 != 0:
             chk.violation("db-unusable", "the process continuing after a kill before call %d (%s) failed with rc %d" % (N, self.call_desc(N), rc2), dict(rp2, stderr=err2[-800:], stdout_tail=out2[-10:]))
         else:
-            for key, what in check_outputs(out2):
+            bad2 = check_outputs(out2)
+            stale = [w for k, w in bad2 if k == "stale-result"]
+            control = None
+            if stale and verdict in ("pre", "post"):
+                # is the kill to blame?  the same continuation on the uncrashed snapshot the file is equal to
+                cd = os.path.join(d, "control")
+                restore_db(d, verdict, to=cd)
+                rc3, out3, err3, sp3, tp3 = enginelib.run_impl(self.drv, lines, cd, keepdb=True, name="control")
+                control = [w for k, w in check_outputs(out3) if k == "stale-result"]
+            for key, what in bad2:
+                if key == "stale-result":
+                    if control is not None and what in control:
+                        if self.window or window_suspects(out2, lines):
+                            chk.notes["stale_in_discovered_window_C05_known"] = chk.notes.get("stale_in_discovered_window_C05_known", 0) + 1
+                        else:
+                            chk.violation("stale-result-uncrashed", "the same continuation on the UNCRASHED %s-build database: %s" % (verdict, what), dict(rp2, note="no kill needed"))
+                        continue
+                    key = "stale-after-crash"
                 chk.violation(key, "continuing after a kill before call %d (%s, database in %s-build state): %s" % (N, self.call_desc(N), verdict, what), rp2)
             nb = 0
             for b in enginelib.split_builds(out2):
                 if b["key"] is None:
                     continue
                 nb += 1
-                for key, what in dump_inv(b["db"]):
-                    chk.violation(key, "continuing after a kill before call %d: %s" % (N, what), rp2)
+                for key, what in dump_inv(b["db"], b["epoch"]):
+                    chk.violation(key, "continuing after a kill before call %d, after %s: %s" % (N, b["hdr"], what), rp2)
             if nb == 0:
                 chk.violation("db-unusable", "the process continuing after a kill before call %d ran no build" % N, dict(rp2, stdout_tail=out2[-10:]))
         chk.count(("kill", self.name, N, self.call_desc(N).split("(")[0], verdict, journal_left) if N <= self.total else None)
@@ -637,9 +747,8 @@ class WholeTarget:
         builds = [b for b in enginelib.split_builds(out) if b["key"] is not None]
         self.dumps = [[]]
         self.traces = []
+        self.window = report_uncrashed(chk, out, self.lines, "uncrashed whole-history process", self.replay_base())
         for b in builds:
-            for key, what in provenance_check(b) + check_outputs([b["hdr"]] + b["other"]):
-                chk.violation(key, "uncrashed build: " + what, dict(self.replay_base(), build=b["hdr"]))
             self.traces.append(ops_of_build(self.dumps[-1], b))
             self.dumps.append(list(b["db"]))
         self.trace_all = [o for t in self.traces for o in t]
@@ -701,13 +810,50 @@ class WholeTarget:
             chk.violation("db-unusable", "the process continuing after a kill before call %d (%s) failed with rc %d" % (N, self.call_desc(N), rc2), dict(rp2, stderr=err2[-800:], stdout_tail=out2[-10:]))
         else:
             for key, what in check_outputs(out2):
+                if key == "stale-result":
+                    if self.window or window_suspects(out2, lines):
+                        chk.notes["stale_in_discovered_window_C05_known"] = chk.notes.get("stale_in_discovered_window_C05_known", 0) + 1
+                        continue
+                    key = "stale-after-crash"
                 chk.violation(key, "continuing after a kill before call %d (%s, %s builds visible): %s" % (N, self.call_desc(N), j, what), rp2)
             for b in enginelib.split_builds(out2):
                 if b["key"] is not None:
-                    for key, what in dump_inv(b["db"]):
-                        chk.violation(key, "continuing after a kill before call %d: %s" % (N, what), rp2)
+                    for key, what in dump_inv(b["db"], b["epoch"]):
+                        chk.violation(key, "continuing after a kill before call %d, after %s: %s" % (N, b["hdr"], what), rp2)
         chk.count(("killw", self.name, N, self.call_desc(N).split("(")[0], j, self.journal_left) if N <= self.total else None)
         return j
+
+
+def chain_check(chk, drv, hist, name):
+    """The history with every build in a process of its own and NO kill: after EVERY build (successful, cancelled, cycle-failed)
+    the tables are read with Python's sqlite3 and must satisfy DbInv; every build is followed by the fresh-engine oracle.
+    -> number of builds checked"""
+    d = os.path.join(RUN, name)
+    shutil.rmtree(d, ignore_errors=True)
+    os.makedirs(d)
+    idx = build_indices(hist)
+    window = False
+    for j, pos in enumerate(idx):
+        lines = ["db 2"] + carry(hist[:pos]) + with_fresh([hist[pos]])
+        rc, out, err, sp, tp = enginelib.run_impl(drv, lines, d, keepdb=True, name="chain%d" % j)
+        rp = dict(history=hist, build_index=j, process=lines, note="no kill: every build of the history runs to its end in a process of its own")
+        if rc != 0:
+            chk.violation("driver-crash", "engine_driver failed on an uncrashed build (rc %d)" % rc, dict(rp, stderr=err[-1500:]))
+            return j
+        window = report_uncrashed(chk, out, lines, "uncrashed history, one process per build", rp, window)
+        db = read_db(os.path.join(d, "build.db"))
+        b = [x for x in enginelib.split_builds(out) if x["key"] is not None][-1]
+        if not db["ok"]:
+            chk.violation("db-unusable", "after the uncrashed %s the database does not read back: %s" % (hist[pos], db["problems"]), rp)
+            return j
+        for key, what in db_inv(db):
+            chk.violation(key, "after the UNCRASHED %s (%s; engine epoch %s, stored iteration %s): %s" % (
+                hist[pos], "cancelled or failed" if aborted(b) else "successful", b["epoch"], db["iteration"], what), dict(rp, dump=db["lines"][:60]))
+        if db["lines"] != b["db"]:
+            chk.violation("dump-mismatch", "Python's read of the database differs from engine_driver's dump_db", dict(rp, python=db["lines"][:20], driver=b["db"][:20]),
+                          found_input=False, broken="harness: read_db vs dump_db")
+        chk.count(("chain", name, j, aborted(b)))
+    return len(idx)
 
 
 def sync_protocol(calls):
@@ -755,8 +901,9 @@ def run(chk):
     chk.proof_gate()
     rng = chk.rng
     # the counter-models must be refuted by the extracted model too (sanity of the executable invariant)
-    cm = [model.ask("countermodel iter_after_commit 7"), model.ask("countermodel commit_per_result 4"), model.ask("countermodel single_txn 7")]
-    if not (cm[0].endswith("inv=0") and cm[1].endswith("inv=0") and cm[2].endswith("inv=1")):
+    cm = [model.ask("countermodel iter_after_commit 7"), model.ask("countermodel commit_per_result 4"), model.ask("countermodel single_txn 7"),
+          model.ask("countermodel failed_no_iteration 7")]
+    if not (cm[0].endswith("inv=0") and cm[1].endswith("inv=0") and cm[2].endswith("inv=1") and cm[3].endswith("inv=0")):
         chk.violation("model-correspondence", "extracted counter-models do not behave as proved: %s" % cm, dict(answers=cm), found_input=False, broken="extraction of Engine/Crash.v")
 
     def sched(r):
@@ -771,19 +918,24 @@ def run(chk):
     targets = []
     for name, hist in hists:
         nb = len(build_indices(hist))
+        blines = [l for l in hist if l.startswith("build ")]
+        cyc = max(int(l.split(" ")[1]) for l in hist if l.startswith("rule ")) - 1
+        failing = [i for i, l in enumerate(blines) if is_cancel_line(l)][:1] + [i for i, l in enumerate(blines) if l == "build %d" % cyc][:1]
+        after_failing = [i + 1 for i in failing if i + 1 < nb][:1]
         if chk.quick():
-            bis = sorted(set([0, nb - 1] + ([rng.randrange(nb)] if nb > 2 else [])))
-            if name.startswith("big"):
-                bis = [0, nb - 1]
+            bis = sorted(set([0, nb - 1] + failing + after_failing + ([rng.randrange(nb)] if nb > 2 and not name.startswith("big") else [])))
         else:
             bis = list(range(nb))
         for bi in bis:
             targets.append(Target(chk, drv, model, hist, bi, "%s_b%d" % (name, bi)))
+    chained = sum(chain_check(chk, drv, hist, name + "_chain") for name, hist in hists)
     usable = []
     for t in targets:
         if t.prepare():
             usable.append(t)
-    stats = dict(targets=len(usable), unchanged_or_unusable=len(targets) - len(usable), kill_points=0, total_calls=0, syscalls={}, pre=0, post=0, other=0,
+    nfail = dict(cancelled_builds=sum(1 for n_, h in hists for l in h if is_cancel_line(l)),
+                 killed_builds_cancelled_or_cycle=sum(1 for t in usable if aborted(t.ref_build)))
+    stats = dict(uncrashed_builds_checked_one_process_each=chained, failures=nfail, targets=len(usable), unchanged_or_unusable=len(targets) - len(usable), kill_points=0, total_calls=0, syscalls={}, pre=0, post=0, other=0,
                  multi_page_commits=0, max_db_writes_in_one_commit=0, journal_left_behind=0)
     if not usable or all(t.total == 0 for t in usable):
         chk.violation("shim-blind", "the fault injector sees no database system call: kill points cannot be enumerated (is SQLite still linked dynamically?)",
